@@ -1,7 +1,7 @@
 (* CloseStep1.v -- consequences of part 1 of the invariant (CloseInv.Inv1) for a single
    step: in a state satisfying Inv1 no thread can take a panicking step. *)
 From Coq Require Import List Arith Bool Lia.
-From RW Require Import Conc.Sys Conc.SysFacts Conc.Close Conc.ListX Conc.CloseInv Conc.CloseFacts Conc.CloseK.
+From RW Require Import Conc.Sys Conc.SysFacts Conc.Close Conc.ListX Conc.CloseInv Conc.CloseFacts Conc.CloseK Conc.CloseSafe.
 Import ListNotations.
 
 Ltac inv_step I H th g' th' E F :=
@@ -76,10 +76,10 @@ Section Step.
 
   (* ---- no step panics ------------------------------------------------------------- *)
   Lemma no_panic s t th g' th' :
-    Inv1 w r s -> nth_error (ths s) t = Some th -> step_thread (sh s) t th = Some (g', th') ->
+    Safe s -> Inv1 w r s -> nth_error (ths s) t = Some th -> step_thread (sh s) t th = Some (g', th') ->
     t_pc th' <> PPanic.
   Proof.
-    intros I E F.
+    intros SA I E F. pose proof (a_thr _ SA _ _ E) as FB. pose proof (a_chain _ SA) as CH.
     pose proof (i_thr _ _ _ I _ _ E) as TF. pose proof (i_wf _ _ _ I _ _ E) as WF.
     unfold step_thread in F. crack F; finish_F F; cbn; try discriminate.
     all: try (match goal with |- t_pc (continue _ _ ?k) <> _ => destruct k; cbn; discriminate end).
@@ -88,6 +88,7 @@ Section Step.
       repeat match goal with H : cur_op _ = _ |- _ => rewrite H in TF end.
     - (* PBody: nil state *) destruct TF as [O _]. rewrite O in *. discriminate.
     - (* PGetRead: offsets index *)
+      unfold factsB in FB. rewrite Heqp, Heqo in FB. destruct FB as [B L]. destruct (CH h) as (_ & C2 & C3).
       unfold read_log in *.
       match goal with H : (if length ?l <=? ?p then _ else _) = Panic |- _ =>
         destruct (Nat.leb_spec (length l) p); [lia|] end.
